@@ -337,7 +337,7 @@ def splitParts (p : Str) : List Str :=
   let b := splitOnChar ',' p
   if b.length ≠ 1 then b else splitWs p
 
-def caseSensitiveParams : List Str := ["label".toList, "value".toList]
+def caseSensitiveParams : List Str := Pyxv.Gen.caseSensitiveParamValues.map String.toList
 
 /-- `parameters_generic.parse`: `key=value` parts into an ordered dict (later duplicates win);
     `none` = "Expecting parameters to be in the form of …" -/
@@ -377,8 +377,7 @@ def floatLit (s : Str) : Option (Bool × Bool) :=
 def allowedOnly (ps : List (Str × Str)) (allowed : List String) : Bool :=
   ps.all fun kv => allowed.any fun a => a.toList = kv.1
 
-def rangeDefaults : List (Str × Str) :=
-  [("start".toList, "1".toList), ("end".toList, "10".toList), ("step".toList, "1".toList)]
+def rangeDefaults : List (Str × Str) := Rows.gtab Pyxv.Gen.rangeDefaults
 
 /-- `process_range_question_type`: written parameters first, missing ones appended with defaults -/
 def rangeWithDefaults (ps : List (Str × Str)) : List (Str × Str) :=
@@ -387,7 +386,7 @@ def rangeWithDefaults (ps : List (Str × Str)) : List (Str × Str) :=
 /-- `float(x) and "." in str(x)` for some parameter (xls2json.py 193-197) -/
 def rangeIsDecimal (vals : List Str) : Bool := vals.any fun v => floatLit v == some (true, true)
 
-def audioQualities : List String := ["voice-only", "low", "normal", "external"]
+def audioQualities : List String := Pyxv.Gen.audioQualityValues
 
 /-- bind attributes a row's `parameters` add to its bind dict, for the type cell `t`;
     `.error` = rejected by pyxform or outside the fragment -/
@@ -542,8 +541,7 @@ def locationPriorities : List String := ["no-power", "low-power", "balanced", "h
 def auditBind (ps : List (Str × Str)) : Except String (List (Str × BVal)) :=
   let get (k : String) : Option Str := lookup k.toList ps
   let tf (v : Str) : Bool := v = "true".toList || v = "false".toList
-  if !allowedOnly ps ["location-priority", "location-min-interval", "location-max-age", "track-changes",
-      "identify-user", "track-changes-reasons"] then .error "audit parameter name"
+  if !allowedOnly ps Pyxv.Gen.auditParamNames then .error "audit parameter name"
   else if !((get "track-changes").all tf) then .error "track-changes value"
   else if !((get "track-changes-reasons").all (· = "on-form-edit".toList)) then .error "track-changes-reasons value"
   else if !((get "identify-user").all tf) then .error "identify-user value"
